@@ -65,6 +65,15 @@ CLAIMED = {
             'Trusts harness/aio.ChoiceLoop and asyncio; bounds: <=3 items (thorough 4), <=2 tasks, concurrency <=3, latency <=1 (2) extra yields; '
             'signal delivery itself and PipelineSeries timing outside the claim; schedule leaves are concrete runs enumerated by the solver.',
             'DESIGN.md 3/C13', 'scheduler decisions, event step and failure position symbolic'),
+    'C19': ('other',
+            'Bounded symbolic verification of the real GzipDecompressor / DeflateDecompressor / Stream decompression hooks over a pure-Python '
+            'model of zlib (stored blocks): payload bytes, cut positions, truncation point and the corrupted position/value are symbolic; '
+            'split result == payload == one-shot for every cut (incl. 1-byte first pieces), damaged streams must raise ProtocolError unless an '
+            'independent one-shot reference accepts them. Counterexamples are replayed on the real zlib with genuine checksums.',
+            'Trusts harness/zmodel.py (validated against the real zlib in every run: all cut/truncation points of 5 payloads, all 65 536 header '
+            'prefixes); Huffman blocks, FDICT, gzip optional fields and checksum arithmetic outside the model; payload <=2 bytes in <=2 blocks '
+            '(thorough 5), <=3 pieces (4).',
+            'DESIGN.md 3/C19', 'payload bytes, cuts, truncation point, corrupted byte symbolic'),
 }
 
 NOT_APPLICABLE = {
@@ -74,7 +83,7 @@ NOT_APPLICABLE = {
 }
 
 PENDING = {k: 'claimed in DESIGN.md 3 but its check is not built yet at this commit' for k in
-           'C04 C05 C07 C08 C09 C10 C15 C16 C17 C19 C20'.split()}
+           'C04 C05 C07 C08 C09 C10 C15 C16 C17 C20'.split()}
 
 
 def main():
